@@ -107,6 +107,13 @@ func (a *Allocation) AddPermission(perms *Permission) error {
 	// with success is never followed by the expiry it came just in time for.
 	perms.allocation = a
 	a.permissionsLock.Lock()
+	// An allocation that has ended takes nothing, and renews nothing either:
+	// Close may not have reached the permission yet.
+	if a.isClosed() {
+		a.permissionsLock.Unlock()
+
+		return ErrAllocationClosed
+	}
 	if existedPermission, ok := a.permissions[fingerprint]; ok {
 		existedPermission.refresh(perms.timeout)
 		a.permissionsLock.Unlock()
@@ -120,11 +127,6 @@ func (a *Allocation) AddPermission(perms *Permission) error {
 	// An allocation that has ended takes nothing new: the request was looked
 	// up before (a user callback may have taken its time since), and Close,
 	// which removes what is listed, has run or is running.
-	if a.isClosed() {
-		a.permissionsLock.Unlock()
-
-		return ErrAllocationClosed
-	}
 	a.permissions[fingerprint] = perms
 	perms.start(perms.timeout)
 	a.permissionsLock.Unlock()
@@ -252,9 +254,15 @@ func (a *Allocation) AddChannelBind(chanBind *ChannelBind, channelLifetime, perm
 	a.channelBindings = append(a.channelBindings, chanBind)
 	chanBind.start(channelLifetime)
 
-	// Channel binds also refresh permissions. (The allocation is not closed,
-	// or Close is waiting for this lock to remove the binding.)
-	_ = a.AddPermission(NewPermission(chanBind.Peer, a.log, permissionLifetime))
+	// Channel binds also refresh permissions. The allocation may have ended
+	// since the check above: Close, which is then waiting for this lock, has
+	// not seen the binding, and it is taken back.
+	if err := a.AddPermission(NewPermission(chanBind.Peer, a.log, permissionLifetime)); err != nil {
+		a.channelBindings = a.channelBindings[:len(a.channelBindings)-1]
+		chanBind.lifetimeTimer.Stop()
+
+		return err
+	}
 
 	if a.eventHandler.OnChannelCreated != nil {
 		a.eventHandler.OnChannelCreated(a.fiveTuple.SrcAddr, a.fiveTuple.DstAddr,
